@@ -562,8 +562,10 @@ class _LengthLimitedFile:
             return b""
         if size == -1 or size > self._bytes_avail:
             size = self._bytes_avail
-        self._bytes_avail -= size
-        return self._input.read(size)
+        # wsgi.input may return fewer bytes than asked for
+        data = self._input.read(size)
+        self._bytes_avail -= len(data)
+        return data
 
     def readline(self, size: int = -1) -> bytes:
         """Read a single line, honouring the remaining byte budget."""
